@@ -2,9 +2,9 @@ CFG = {
     "jobs": lambda tier: [
         J("scaled", "c02-comp --aspect C14", imports="Base Stream Inst Run RunFsComp", shard=20),
         J("scaled", "witness --only C14"),
-        J("scaled", "c14"),
+        J("scaled", "c14", imports="Base Stream Inst Run RunFsComp RunFsStack"),
     ],
-    "run_modules": ["RunFsComp"],
+    "run_modules": ["RunFsComp", "RunFsStack"],
     "rule": "scaled constants (CHUNK=64, TAG=16): 60 (quick) / 400 (thorough) generated archives with at least one piece (1-4 files, "
             "boundary-sized interleaved pieces around CIPHERBUF/CHUNK/BLOCK, the 4 layer combinations in turn, levels {0,1,5,9,11}, compressible "
             "and random data), flush() called after 1-2 randomly chosen appends; one case per flush: the bytes the destination held when "
@@ -29,8 +29,13 @@ CFG = {
                    "loop runs over the model of CompressionLayerFailSafeReader as a stream (FsCompStream.FsComp) under the DecoderLaws; "
                    "RepairMask.repair_mask shows that a source ending with an error (UnexpectedEof inside a brotli stream) yields the same "
                    "output archive and unfinished list as one ending with Ok(0) - only the stopping status differs. Correspondence: the rows of the real repair "
-                   "(status, unfinished, re-read of the repaired archive) of the flushed bytes equal repair_plain / repair_enc (concrete AES-GCM in "
-                   "Coq) for layer-less and encrypt-only archives. Oracle (all layer combinations): flush returns after the header reached the "
+                   "(status, unfinished names sorted, re-read of the repaired archive: per-file recovered bytes) of the flushed bytes equal repair_plain / "
+                   "repair_enc (concrete AES-GCM in Coq) for layer-less and encrypt-only archives, and repair_comp / repair_comp_enc "
+                   "(theories/RunFsStack.v) for compressed and compressed+encrypted archives: the flushed prefix ends inside a compressed block at a "
+                   "flush point; the repair loop runs over the model of CompressionLayerFailSafeReader (over the cursor / the fail-safe decryptor) "
+                   "with the greedy table-driven decoder instance of RunFsComp.v, brotli tabulated per archive by the harness without mla for every "
+                   "prefix of every block of the FULL archive's compression-layer stream (schedule independence: fs_comp_sched_indep, "
+                   "repair_fscomp_exact). Oracle (all layer combinations): flush returns after the header reached the "
                    "destination; unauthenticated repair of the flushed bytes succeeds and every file's recovered bytes start with what was appended "
                    "before the flush; authenticated repair recovers at least what unauthenticated repair recovers from the flushed bytes cut at the "
                    "last complete chunk.",
@@ -44,7 +49,8 @@ CFG = {
         "brotli's decoder enters through the DecoderLaws; both are observed by job c02-comp, not proved",
         "the calls before the flush must be clean: no append from a short source (D8: it leaves a content block whose announced length is wrong) "
         "and no finalize; sizes < 2^64, names valid UTF-8, fewer than 2^64 files (what the types guarantee)",
-        "with compression the stopping status of repair is not stated (the fail-safe decompressor ends a cut stream with an error inside a brotli stream)",
+        "with compression the stopping status of repair is not stated by the theorems (the fail-safe decompressor ends a cut stream with an error inside a brotli stream); "
+        "it is compared by the correspondence (repair_comp / repair_comp_enc rows)",
         "the destination accepts every write in the c14 cases (C13 lifts this: sink independence)",
     ],
 }
